@@ -747,6 +747,7 @@ REFUSALS = [
     ("Freelist carving cannot be enabled", "carveFreelistsWithoutCarve"),
     ("if an export type other than text", "exportNeedsDirectory"),
     ("if a file prefix is", "prefixNeedsDirectory"),
+    ("must not contain a path separator", "prefixHasSeparator"),
     ("Unable to create the new output directory", "cannotCreateDirectory"),
     ("Unable to create the new sub-directory", "cannotCreateSubDirectory"),
     ("Unable to find SQLite file", "sqliteFileMissing"),
